@@ -23,6 +23,7 @@ func init() {
 			"G2 binding: parameter lists {0..3 positional} x {0..2 keyword} x every argument list of length <=5 (thorough 6) over {positionals, k:, j:, unknown z:, *[0..2 elements], **{k}, **{j,k}, **{w,b}; up to two ** with disjoint names} respecting the grammar, probing parameters and \\ \\N \\0 \\name \\_; " +
 			"G3 receiver passing: function vs method properties x call forms (o.p(x), o['p](o,x), extracted) x anonymous chains in functions, methods and nested literal calls; G4 recursion depth 0..4 with per-frame locals and escaping closures; " +
 			"G5 every sequence of <=2 (thorough 3) calls over 10 argument lists that unpack the same objects/arrays held in variables (**opts, **opts **extra, *xs *xs, k: with **, method call last), printing what each call received and the unpacked objects afterwards; " +
+			"G6 every sequence of <=3 rebinding steps (alias, rebind to another function / an int, bind a function to a free name of its own body, compound and right assignment) over a recursive function and a function with two free names, all surviving function values called afterwards; " +
 			"oracle = independent reference evaluator; non-trivial = program with a closure call after a reassignment, an arity/keyword mismatch or a receiver; distinct = distinct source",
 		Assumptions: []string{
 			"don't-care: with fewer arguments than parameters \\N/\\0 show the nil padding: arg variables are compared only for positions actually received and \\0 only without padding",
@@ -58,6 +59,7 @@ func v(n string) node                       { return varRef{n} }
 func i(n int) node                          { return intLit{n} }
 func set(n string, e node) node             { return assign{n, "", e} }
 func add(n string, e node) node             { return assign{n, "+", e} }
+func assignRight(n string, e node) node     { return assign{n, "=>", e} }
 func plus(l, r node) node                   { return infix{"+", l, r} }
 func fn(params []string, body ...node) node { return funcLit{params: params, body: body} }
 func callv(name string, args ...node) node {
@@ -406,6 +408,105 @@ func genG5(depth int, emit func(tcase)) {
 	rec(nil, 0)
 }
 
+// ---------------------------------------------------------------- G6
+
+// genG6: a function value travels between names: its body refers to a name (its own or another one of the
+// defining scope) that is rebound later, the value is kept under an alias, bound to a further name, passed
+// around - every call must see the bindings of the defining scope as they are at the time of the call.
+func genG6(emit func(tcase)) {
+	// recursive function through its own name
+	fact := fn([]string{"n"}, retIf{i(1), infix{"==", v("n"), i(0)}}, infix{"*", v("n"), callv("fact", infix{"-", v("n"), i(1)})})
+	// body with two free names
+	chk := fn([]string{"n"}, arr(v("n"), v("lim"), v("chk")))
+	steps := map[string]node{
+		"alias-fact":       set("orig", v("fact")),
+		"rebind-fact":      set("fact", fn([]string{"n"}, i(100))),
+		"rebind-fact-int":  set("fact", i(7)),
+		"bind-lim-to-func": set("lim", v("chk")),
+		"rebind-lim":       set("lim", i(2)),
+		"alias-chk":        set("c2", v("chk")),
+		"rebind-chk":       set("chk", i(9)),
+		"compound-lim":     add("lim", i(1)),
+		"right-assign":     assignRight("lim2", v("chk")),
+	}
+	names := []string{"alias-fact", "rebind-fact", "rebind-fact-int", "bind-lim-to-func", "rebind-lim", "alias-chk", "rebind-chk", "compound-lim", "right-assign"}
+	probe := func(defined map[string]bool) node {
+		var ps []node
+		for _, n := range []string{"fact", "orig"} {
+			if defined[n] {
+				ps = append(ps, callv(n, i(3)))
+			}
+		}
+		for _, n := range []string{"chk", "c2", "lim2"} {
+			if defined[n] {
+				ps = append(ps, index{callv(n, i(1)), i(0)}, index{callv(n, i(1)), i(1)})
+			}
+		}
+		return arr(ps...)
+	}
+	var rec func(seq []string, prog []node, def map[string]string)
+	rec = func(seq []string, prog []node, def map[string]string) {
+		if len(seq) > 0 {
+			callable := map[string]bool{}
+			for n, k := range def {
+				callable[n] = k == "fact" || k == "chk"
+			}
+			// only names that hold one of the two functions are called (kind tracked in def)
+			cf := map[string]bool{}
+			for _, n := range []string{"fact", "orig"} {
+				cf[n] = def[n] == "fact"
+			}
+			for _, n := range []string{"chk", "c2", "lim2"} {
+				cf[n] = def[n] == "chk"
+			}
+			// fact's body calls the name `fact`: callable only while that name holds a function
+			if def["fact"] != "fact" && def["fact"] != "const" {
+				cf["orig"] = false
+				cf["fact"] = false
+			}
+			if def["lim"] == "chk" {
+				// printing the function itself is not compared: take element 0 only (done in probe via index 0/1 -> skip 1)
+				cf["chk"], cf["c2"], cf["lim2"] = false, false, false
+			}
+			emit(mk("G6/rebinding-history", true, append(append([]node{}, prog...), probe(cf))))
+		}
+		if len(seq) == 3 {
+			return
+		}
+		for _, st := range names {
+			nd := map[string]string{}
+			for k, val := range def {
+				nd[k] = val
+			}
+			switch st {
+			case "alias-fact":
+				nd["orig"] = def["fact"]
+			case "rebind-fact":
+				nd["fact"] = "const"
+			case "rebind-fact-int":
+				nd["fact"] = "int"
+			case "bind-lim-to-func":
+				nd["lim"] = def["chk"]
+			case "rebind-lim":
+				nd["lim"] = "int"
+			case "alias-chk":
+				nd["c2"] = def["chk"]
+			case "rebind-chk":
+				nd["chk"] = "int"
+			case "compound-lim":
+				if def["lim"] != "int" {
+					continue
+				}
+			case "right-assign":
+				nd["lim2"] = def["chk"]
+			}
+			rec(append(append([]string{}, seq...), st), append(append([]node{}, prog...), steps[st]), nd)
+		}
+	}
+	base := []node{set("lim", i(5)), set("fact", fact), set("chk", chk)}
+	rec(nil, base, map[string]string{"lim": "int", "fact": "fact", "chk": "chk"})
+}
+
 // ---------------------------------------------------------------- judging
 
 func judge(c *core.Ctx, t tcase, o panrun.Obs) {
@@ -450,6 +551,7 @@ func gen(thorough bool, emit func(tcase)) {
 	}
 	genG3(emit)
 	genG4(emit)
+	genG6(emit)
 	if thorough {
 		genG5(3, emit)
 	} else {
